@@ -44,6 +44,7 @@ type Exec struct {
 	writeSets map[*ssa.Function]map[string]bool
 	pureMemo  map[string]Val
 	notedFacts map[string]bool
+	alias     map[string]string // recorded name -> name now at the same position (renamed variables)
 	pending   []string
 	qpending  []string // type facts of loads that mention quantified variables (closed by evalQuant)
 	qsyms     []string // symbols of quantifier variables currently in scope
